@@ -16,6 +16,7 @@ type GenCfg struct {
 	InitFail       bool
 	Cancel         bool
 	Cast           bool
+	BadCast        bool // exchange whose inputs cannot be cast to the declared schema
 	WriteAhead     bool
 	Levels         bool
 	InputMeta      bool
@@ -129,6 +130,10 @@ func GenOps(tp *simkern.Tape, c GenCfg) []*Op {
 			}
 			if c.Cast && op.StreamKind == "exchange" && tp.Bool(1, 3) {
 				op.Cast = true
+			}
+			if c.BadCast && op.StreamKind == "exchange" && op.Method != "dyn" && op.Script.Outcome == "ok" && tp.Bool(1, 6) {
+				op.BadCast = true
+				op.Cast = false
 			}
 			if c.WriteAhead && tp.Bool(1, 3) {
 				op.WriteAhead = 1 + tp.Draw(2)
